@@ -64,7 +64,7 @@ type wWorld struct {
 
 	maxOps   uint
 	maxOpsBy map[uint64]uint // per protocol version (genesis time)
-	passMax  []uint // MaxOperationCount of every version that was current at some seam call of the writer in this pass
+	passMax  []uint          // MaxOperationCount of every version that was current at some seam call of the writer in this pass
 	versions []*simenv.Version
 	proto    *simenv.ProtoClient
 	cas      *simenv.CAS
